@@ -98,9 +98,22 @@ def get_closest(sorted_array: NDArray, values: NDArray) -> NDArray:
     idxs = np.searchsorted(sorted_array, values, side="left")
 
     # find indexes where previous index is closer
+    # (distances in floating point: the difference of two unsigned integers would wrap around below zero)
     prev_idx_is_less = (idxs == len(sorted_array)) | (
-        np.fabs(values - sorted_array[np.maximum(idxs - 1, 0)])
-        < np.fabs(values - sorted_array[np.minimum(idxs, len(sorted_array) - 1)])
+        np.fabs(
+            np.subtract(
+                values,
+                sorted_array[np.maximum(idxs - 1, 0)],
+                dtype=np.float64,
+            ),
+        )
+        < np.fabs(
+            np.subtract(
+                values,
+                sorted_array[np.minimum(idxs, len(sorted_array) - 1)],
+                dtype=np.float64,
+            ),
+        )
     )
     idxs[prev_idx_is_less] -= 1
 
